@@ -32,3 +32,8 @@ Definition new_comparable_unrepaired (arg : bmap) : bmap := arg.
 (* N4: GrowE let the panic of Grow escape *)
 Definition growE_unrepaired (h : heap) (s : slice) (n : Z) (oc : nat) : res :=
   if (n <? 0)%Z then Ok h s VNone true else lift h s (fun _ => VNone) (prim_grow h s n oc).
+
+(* N5: Unmarshal decoded straight into x.e: documents past len were merged into whatever the spare capacity held
+   (removed elements, the caller's old data) *)
+Definition unmarshal_docs_unrepaired (h : heap) (s : slice) (ds : list jdoc) (oc : nat) : heap * slice :=
+  unmarshal_arr h s (merge_all (fullwin h s) ds) oc.
